@@ -39,6 +39,9 @@ type WCase struct {
 	Objects  []string   `json:"objects"` // names of ConfigMaps in namespace default
 	Bindings []WBinding `json:"bindings"`
 	Requests []int      `json:"requests"` // indexes into Bindings
+	// BeforeStart: the requests arrive before the operator's queues have started (the webhook servers are up
+	// earlier than the monitors): every included snapshot is still an (empty) list
+	BeforeStart bool `json:"before_start,omitempty"`
 }
 
 func genWebhooks(t *rapid.T) WCase {
@@ -71,6 +74,7 @@ func genWebhooks(t *rapid.T) WCase {
 		}
 		c.Bindings = append(c.Bindings, b)
 	}
+	c.BeforeStart = rapid.IntRange(0, 3).Draw(t, "beforeStart") == 0
 	nr := rapid.IntRange(1, 4).Draw(t, "nr")
 	for i := 0; i < nr; i++ {
 		c.Requests = append(c.Requests, rapid.IntRange(0, nb-1).Draw(t, "target"))
@@ -119,12 +123,17 @@ func runWebhooks(c WCase) (ev.Info, error) {
 	if err := env.Assemble(); err != nil {
 		return info, fmt.Errorf("harness: assemble: %v\n%s", err, d.JSON())
 	}
-	env.Start()
-	if !env.WaitIdle(5*time.Millisecond, 20*time.Second) {
-		return info, fmt.Errorf("harness: operator did not become idle after start")
-	}
 	wantObjs := append([]string{}, c.Objects...)
 	sort.Strings(wantObjs)
+	if c.BeforeStart {
+		wantObjs = []string{}
+		info.Labels = append(info.Labels, "requests-before-start")
+	} else {
+		env.Start()
+		if !env.WaitIdle(5*time.Millisecond, 20*time.Second) {
+			return info, fmt.Errorf("harness: operator did not become idle after start")
+		}
+	}
 	for ri, bi := range c.Requests {
 		b := c.Bindings[bi]
 		where := fmt.Sprintf("request %d for %s binding %q (group %q, includeSnapshotsFrom %v)", ri, b.Kind, b.Name, b.Group, b.Includes)
@@ -255,7 +264,7 @@ func safeName(s string) string {
 	return string(out)
 }
 
-const ruleWebhooks = "one scripted hook with 0-2 snapshot-only kubernetes bindings (group none/g1), 1-4 kubernetesValidating / kubernetesMutating / kubernetesCustomResourceConversion bindings with group in {none, g1, a group without members} and includeSnapshotsFrom subsets, 0-3 ConfigMaps; 1-4 AdmissionReview/ConversionReview requests through the real routers of the started operator; the binding context file of every execution (from the hook process's log) must be an array with one item carrying exactly the documented keys for its type (binding, type Validating/Mutating/Conversion, review with the request's uid, fromVersion/toVersion of the rule that is being executed - the conversion binding declares two rules and a request needs both -, snapshots exactly when the effective include set is non-empty, with exactly those keys and the cluster's objects). Non-trivial: an item with snapshots."
+const ruleWebhooks = "one scripted hook with 0-2 snapshot-only kubernetes bindings (group none/g1), 1-4 kubernetesValidating / kubernetesMutating / kubernetesCustomResourceConversion bindings with group in {none, g1, a group without members} and includeSnapshotsFrom subsets, 0-3 ConfigMaps; 1-4 AdmissionReview/ConversionReview requests through the real routers of the started operator (in a quarter of the cases before the operator is started: snapshots are empty lists then); the binding context file of every execution (from the hook process's log) must be an array with one item carrying exactly the documented keys for its type (binding, type Validating/Mutating/Conversion, review with the request's uid, fromVersion/toVersion of the rule that is being executed - the conversion binding declares two rules and a request needs both -, snapshots exactly when the effective include set is non-empty, with exactly those keys and the cluster's objects). Non-trivial: an item with snapshots."
 
 func TestWebhookContexts(t *testing.T) {
 	ev.Main(t, ev.Spec[WCase]{Property: "C09", Part: "webhooks", Rule: ruleWebhooks, Gen: genWebhooks, Run: runWebhooks, Journal: true})
